@@ -11,7 +11,7 @@ Translation of the input conventions (stated here once, used by the theorems in 
   (`gradSteps`, `learningStarts`, `batch`, …) have no counterpart there and are arbitrary;
 * episode ends: `Callback` takes a function `dones g` of the global index `g` of the vectorised environment step
   (1-based, persistent over `learn` calls); `Learn` takes the number with each `env` input → the `i`-th `step` call of
-  a trace that started with `g0` steps already made becomes `env _ (dones (g0+i)) none`;
+  a trace that started with `g0` steps already made becomes `env _ (dones (g0+i)) []`;
 * stop requests: `Callback` gets them as the answer of the handler to `step`; `Learn` as the flag of the `env`
   input → `env (!answer) …` (`opsOf`). Because the answers are read off the other machine's own log, the agreement
   holds for EVERY handler (any callback tree), not only for a leaf.
@@ -65,7 +65,7 @@ def nStepCalls : List (Call × Bool) → Nat
 before): stop flag = negated answer, episode ends = `dones` at the global step index -/
 def opsOf (dones : Dones) : Nat → List (Call × Bool) → List Op
   | _, [] => []
-  | g, (.step _, ok) :: t => .env (!ok) (dones (g + 1)) none :: opsOf dones (g + 1) t
+  | g, (.step _, ok) :: t => .env (!ok) (dones (g + 1)) [] :: opsOf dones (g + 1) t
   | g, (.trainingStart _, _) :: t => opsOf dones g t
   | g, (.rolloutStart, _) :: t => opsOf dones g t
   | g, (.updateLocals _, _) :: t => opsOf dones g t
@@ -115,7 +115,7 @@ theorem projE_trainOff (n : Nat) (c : OffCfg) (s : State) : projE (trainOff n c 
   rcases trainOff_cases n c s with ⟨h, _⟩ | ⟨h, _⟩ <;> rw [h] <;> simp [projE]
 
 /-- the step continues the rollout -/
-theorem env_mid (cfg : Learn.Cfg) (s : State) (d : Nat) (k : Option Nat) (hr : s.running = true)
+theorem env_mid (cfg : Learn.Cfg) (s : State) (d : Nat) (k : List Bool) (hr : s.running = true)
     (hm : moreAfter cfg s d = true) :
     projE (step cfg s (.env false d k)).2 = [Call.step (s.num + cfg.nEnvs)] ∧
       (step cfg s (.env false d k)).1.running = true ∧
@@ -137,7 +137,7 @@ theorem env_mid (cfg : Learn.Cfg) (s : State) (d : Nat) (k : Option Nat) (hr : s
     simp [projE, offStepState, hr]
 
 /-- the step completes the rollout: rollout end, (updates,) then the next rollout starts or the call ends -/
-theorem env_end (cfg : Learn.Cfg) (s : State) (d : Nat) (k : Option Nat) (hr : s.running = true)
+theorem env_end (cfg : Learn.Cfg) (s : State) (d : Nat) (k : List Bool) (hr : s.running = true)
     (hm : moreAfter cfg s d = false) :
     projE (step cfg s (.env false d k)).2 =
         [Call.step (s.num + cfg.nEnvs), Call.rolloutEnd] ++
@@ -177,7 +177,7 @@ theorem env_end (cfg : Learn.Cfg) (s : State) (d : Nat) (k : Option Nat) (hr : s
     rw [projE_append, projE_append, h1, projE_trainOff]
     simp [projE]
 
-theorem env_stop (cfg : Learn.Cfg) (s : State) (d : Nat) (k : Option Nat) (hr : s.running = true) :
+theorem env_stop (cfg : Learn.Cfg) (s : State) (d : Nat) (k : List Bool) (hr : s.running = true) :
     projE (step cfg s (.env true d k)).2 = [Call.step (s.num + cfg.nEnvs), Call.trainingEnd] ∧
       (step cfg s (.env true d k)).1.running = false ∧
       (step cfg s (.env true d k)).1.num = s.num + cfg.nEnvs ∧
@@ -367,12 +367,12 @@ theorem inv_next {σ : Type} (cfg : Learn.Cfg) (dones : Dones) (hsz : 0 < rollou
         trivial
       obtain ⟨b1, ok, t1, t2, t3, t4, t5⟩ := e1
       have hops : opsOf dones g0 (s.next (cbCfg cfg dones) h).trace =
-          opsOf dones g0 s.trace ++ [.env (!ok) (dones (s.g + 1)) none] := by
+          opsOf dones g0 s.trace ++ [.env (!ok) (dones (s.g + 1)) []] := by
         rw [t1, opsOf_append, ← hg]; simp [opsOf]
       have hrun' : run cfg st0 (.learn T r :: opsOf dones g0 (s.next (cbCfg cfg dones) h).trace) =
-          ((step cfg (run cfg st0 (.learn T r :: opsOf dones g0 s.trace)).1 (.env (!ok) (dones (s.g + 1)) none)).1,
+          ((step cfg (run cfg st0 (.learn T r :: opsOf dones g0 s.trace)).1 (.env (!ok) (dones (s.g + 1)) [])).1,
             (run cfg st0 (.learn T r :: opsOf dones g0 s.trace)).2 ++
-              (step cfg (run cfg st0 (.learn T r :: opsOf dones g0 s.trace)).1 (.env (!ok) (dones (s.g + 1)) none)).2) := by
+              (step cfg (run cfg st0 (.learn T r :: opsOf dones g0 s.trace)).1 (.env (!ok) (dones (s.g + 1)) [])).2) := by
         rw [hops, ← List.cons_append, run_snoc]
       refine ⟨(by rw [t4]; exact htot), (by rw [t5, t1, nStepCalls_append]; simp [nStepCalls, hg]; omega),
         (fun hh => by rw [t2] at hh; cases ok <;> cases hh), fun _ => ?_⟩
@@ -383,7 +383,7 @@ theorem inv_next {σ : Type} (cfg : Learn.Cfg) (dones : Dones) (hsz : 0 < rollou
         rw [t1, projC_append]; simp [projC]
       cases ok with
       | false =>
-        obtain ⟨p1, p2, p3, p4⟩ := env_stop cfg R.1 (dones (s.g + 1)) none hrun
+        obtain ⟨p1, p2, p3, p4⟩ := env_stop cfg R.1 (dones (s.g + 1)) [] hrun
         simp only [Bool.not_false]
         refine ⟨?_, by rw [p3, hn, t3], by rw [p4, ht, t4], ?_⟩
         · rw [projE_append, p1, ← hp, hpc', hn]; simp [pending, t2]
@@ -394,14 +394,14 @@ theorem inv_next {σ : Type} (cfg : Learn.Cfg) (dones : Dones) (hsz : 0 < rollou
         rw [hcol] at hme
         cases hm : moreAfter cfg R.1 (dones (s.g + 1)) with
         | true =>
-          obtain ⟨p1, p2, p3, p4, p5, p6⟩ := env_mid cfg R.1 (dones (s.g + 1)) none hrun hm
+          obtain ⟨p1, p2, p3, p4, p5, p6⟩ := env_mid cfg R.1 (dones (s.g + 1)) [] hrun hm
           rw [hm] at hme
           refine ⟨?_, by rw [p3, hn, t3], by rw [p4, ht, t4], ?_⟩
           · rw [projE_append, p1, ← hp, hpc', hn]; simp [pending, t2, hme]
           · simp only [stOK, t2, cond_true, hme, if_true]
             exact ⟨p2, by rw [p5, hcol], fun oc hoc => by rw [p6 oc hoc, heps oc hoc]⟩
         | false =>
-          obtain ⟨p1, p2, p3, p4, p5⟩ := env_end cfg R.1 (dones (s.g + 1)) none hrun hm
+          obtain ⟨p1, p2, p3, p4, p5⟩ := env_end cfg R.1 (dones (s.g + 1)) [] hrun hm
           rw [hm] at hme
           refine ⟨?_, by rw [p3, hn, t3], by rw [p4, ht, t4], ?_⟩
           · rw [projE_append, p1, ← hp, hpc', hn, ht]
